@@ -170,7 +170,7 @@ def run_cases(ctx, mod, cases):
     """Drive mod.run over cases, isolating harness errors per case; a per-case watchdog bounds every run."""
     import signal
 
-    limit = float(os.environ.get("VERIF_CASE_TIMEOUT", str(getattr(mod, "CASE_TIMEOUT", 180))))
+    limit = float(os.environ.get("VERIF_CASE_TIMEOUT", str(getattr(mod, "CASE_TIMEOUT", 300))))
     use_alarm = hasattr(signal, "setitimer")
     if use_alarm:
         signal.signal(signal.SIGALRM, _alarm)
